@@ -19,10 +19,21 @@ var c03Principals = []sdk.AccAddress{
 	sdk.AccAddress("user-c--------------"),
 }
 
-type c03Tx struct{ msgs []sdk.Msg }
+// c03Tx is a fee transaction (as every real transaction is): it may name a fee
+// granter, whose allowance to the fee payer the SDK checks elsewhere and which
+// says nothing about who may act in a creator's name.
+type c03Tx struct {
+	msgs    []sdk.Msg
+	granter sdk.AccAddress
+	payer   sdk.AccAddress
+}
 
 func (t c03Tx) GetMsgs() []sdk.Msg                    { return t.msgs }
 func (t c03Tx) GetMsgsV2() ([]protov2.Message, error) { return nil, nil }
+func (t c03Tx) GetGas() uint64                        { return 200000 }
+func (t c03Tx) GetFee() sdk.Coins                     { return nil }
+func (t c03Tx) FeePayer() []byte                      { return t.payer }
+func (t c03Tx) FeeGranter() []byte                    { return t.granter }
 
 func VerifC03_Ante() {
 	ctx, ms := models.NewContext(10)
@@ -63,7 +74,14 @@ func VerifC03_Ante() {
 	}
 	passed := false
 	d := NewVerifyAuthorisedSignatureDecorator(fg)
-	_, err := d.AnteHandle(ctx, c03Tx{msgs: msgs}, false, func(ctx sdk.Context, tx sdk.Tx, simulate bool) (sdk.Context, error) {
+	tx := c03Tx{msgs: msgs, payer: c03Principals[1]}
+	switch sym.Choice("fee-granter", 3) {
+	case 1:
+		tx.granter = c03Principals[0]
+	case 2:
+		tx.granter = c03Principals[2]
+	}
+	_, err := d.AnteHandle(ctx, tx, false, func(ctx sdk.Context, tx sdk.Tx, simulate bool) (sdk.Context, error) {
 		passed = true
 		return ctx, nil
 	})
